@@ -237,15 +237,47 @@ impl C14 {
                         }
                     }
                 }
+                7 if pipes.iter().any(|p| !p.q.is_empty()) => {
+                    // a read whose destination cannot take the bytes: the step fails, and the queued bytes must still be
+                    // there for the next read (no loss)
+                    let pi = (0..pipes.len()).find(|i| !pipes[*i].q.is_empty()).unwrap();
+                    let avail = pipes[pi].q.len() as u64;
+                    let buf = match rng.below(3) {
+                        0 => BUF_AT + BUF_LEN - 1,                                                                    // one byte of room before the end of the area
+                        1 => 0x7000_0000_0000,                                                                          // unmapped
+                        _ => CODE_AT,                                                                                   // not writable
+                    };
+                    let n = avail + rng.below(4);
+                    // only judged when the copy-out really cannot succeed
+                    let fits = buf >= BUF_AT && buf + n.min(avail) <= BUF_AT + BUF_LEN;
+                    if !fits {
+                        let rd = pipes[pi].rd;
+                        let r = sys(&mut ax, 0, rd, buf, n);
+                        col.eval(1);
+                        col.distinct_key("read|destination-unusable");
+                        tail.push(format!("read(pipe{}, {:#x}) into unusable buffer {:#x} with {} available", pi, n, buf, avail));
+                        if r.is_panic() {
+                            return fail(col, &format!("panic:{}", r.panic_key()), r.describe(), &tail);
+                        }
+                        if let Call::Ok(v) = r {
+                            return fail(col, "read-into-unusable-buffer-succeeded", format!("returned {:#x}", v), &tail);
+                        }
+                    }
+                }
                 _ => {
                     // read / write / other syscalls on descriptors that are NOT pipe ends: must reach the later hook
                     let fd = loop {
-                        let f = match rng.below(6) {
+                        let f = match rng.below(8) {
                             0 => 0,
                             1 => 1,
                             2 => 2,
                             3 => rng.below(1024),
                             4 => 1024 + rng.below(70000),
+                            // a pipe end's number in the low 32 bits, something else above: NOT that descriptor
+                            5 | 6 if !pipes.is_empty() => {
+                                let p = &pipes[rng.below(pipes.len() as u64) as usize];
+                                (if rng.below(2) == 0 { p.rd } else { p.wr }) | (rng.range(1, 0xffff_ffff) << 32)
+                            }
                             _ => rng.next(),
                         };
                         if !pipes.iter().any(|p| p.rd == f || p.wr == f) {
